@@ -43,7 +43,7 @@ COMPONENTS = {
 ASSUMPTIONS = ['single thread, no schedule: the fault plan is the whole search space',
                'a failing example fails deterministically on every evaluation']
 
-KINDS = ['filter', 'filter_sub', 'value', 'key', 'index', 'notimpl', 'base']
+KINDS = ['filter', 'filter_sub', 'filter_bare', 'value', 'key', 'index', 'notimpl', 'base']
 CATCHES = ['filter', 'filter', 'value', ['filter', 'key'], ['value', 'key'], 'filter_sub',
            ['filter', 'index'], 'index', ['value', 'notimpl'], [], 'base', ['filter', 'base'],
            'stopiter', ['value', 'stopiter']]
